@@ -21,6 +21,21 @@ pub fn op_dec(args: &[Sexp]) -> String {
     format!("ok {}", of_f64(GdsFloat64::decode(g).to_bits()))
 }
 
+/// `f.decenc <gds bits>`: decode, then encode the double just decoded — the two calls in this order, nothing in between
+pub fn op_decenc(args: &[Sexp]) -> String {
+    let g = match args.get(0).and_then(|a| a.f64bits()) {
+        Some(b) => b,
+        None => return "bad-op".into(),
+    };
+    let d = GdsFloat64::decode(g);
+    match GdsFloat64::try_encode(d) {
+        Ok(g2) => format!("ok {} {}", of_f64(d.to_bits()), of_f64(g2)),
+        Err(_) => format!("ok {} err", of_f64(d.to_bits())),
+    }
+}
+fn decenc_case(g: u64) -> String {
+    format!("f.decenc {}", of_f64(g))
+}
 fn enc_case(b: u64) -> String {
     format!("f.enc {}", of_f64(b))
 }
@@ -66,6 +81,25 @@ pub fn gen(thorough: bool, rng: &mut Rng, out: &mut Vec<String>) {
                 out.push(dec_case((e << 56) | hi | (0x000F_FFFF_FFFF_FFE0) | (low & 0x1F)));
             }
         }
+    }
+    // (3b) decode-then-encode histories: reals with 54..56 significant bits, unnormalised reals (leading hex digits zero),
+    // all-ones mantissas — the encoding of the decoded double must be its own exact, normalised encoding, not the input
+    for e in [0u64, 1, 2, 63, 64, 65, 66, 126, 127] {
+        for s in [0u64, 1] {
+            for top in 0..16u64 {
+                for low in [0u64, 1, 2, 3, 4, 7, 8, 9, 0xF, 0x10] {
+                    out.push(decenc_case((s << 63) | (e << 56) | (top << 52) | low));
+                    out.push(decenc_case((s << 63) | (e << 56) | (top << 52) | 0x000F_FFFF_FFFF_FFF0 | (low & 0xF)));
+                    out.push(decenc_case((s << 63) | (e << 56) | (top << 44) | low));          // two leading zero digits
+                    out.push(decenc_case((s << 63) | (e << 56) | (top << 8) | low));           // almost all digits zero
+                }
+            }
+        }
+    }
+    for _ in 0..(if thorough { 200_000 } else { 20_000 }) {
+        let r = rng.next();
+        out.push(decenc_case(r));
+        out.push(decenc_case(r & 0xFF00_FFFF_FFFF_FFFF));
     }
     // (4) uniform random bit patterns, both directions; doubles biased into the GDS range
     let n = if thorough { 4_000_000 } else { 300_000 };
@@ -183,6 +217,19 @@ pub fn oracle(line: &str) -> String {
                     }
                 }
             }
+        }
+        "f.decenc" => {
+            // the history decode → encode on the same thread: whatever the input real looked like (too many bits,
+            // not normalised), the second call must return the exact normalised encoding of the double it is given
+            let d = GdsFloat64::decode(v);
+            let db = d.to_bits();
+            let r = GdsFloat64::try_encode(d);
+            if !in_gds_range(db) { return "na".into(); }
+            let g2 = match r { Ok(g) => g, Err(_) => return "fail a decoded in-range double is rejected by the encoder".into() };
+            if db << 1 == 0 { return if g2 == 0 { "pass".into() } else { "fail zero not all-zero".into() }; }
+            if Some(gds_exact(g2)) != f64_exact(db) { return format!("fail encode after decode is not the exact encoding of the double: {:016x}", g2); }
+            if (g2 & 0x00FF_FFFF_FFFF_FFFF) >> 52 == 0 { return format!("fail encode after decode is not normalised: {:016x}", g2); }
+            "pass".into()
         }
         "f.dec" => {
             let g = v;
